@@ -1,4 +1,4 @@
-import IncrVerif.Proofs.NecRel6
+import IncrVerif.Proofs.NecRel7
 /-!
 # C05Release — the necessity invariant `NecWF` (C05/C11) in RELEASE mode (`cfg.debug = false`)
 
@@ -33,12 +33,20 @@ build would have accepted.
 * `release_transfer`: for any `x` with `Sim x` and debug-mode preservation of `NecWF`: from a release state `s`
   (`Release s`, `NecWF s`), if the debug run from a twin `debugTwin s cr` returns `.ok a` in `sd'`, then the
   release run from `s` returns `.ok a` in `erase sd'`, and `NecWF (erase sd') ∧ Release (erase sd')`.
-* its instances `stabilise_release`, `writeVar_release`, `didSetVarWhileNotStabilising_release`,
+* `stepAction_debug_ok` (new also for debug mode: `Props/C05.lean` states the entry points one by one): the
+  normal outcome of EVERY driver action `stepAction env a tokens` keeps `NecWF` when debug assertions are on;
+  `stepAction_release_necwf`: its release form; `history_release`: for a whole history — if the debug build
+  runs a list of actions from `State.init N true` with every action returning normally (`runActs`,
+  `Proofs/NecRel7.lean`: `stepAction` iterated, token table threaded), the release build from
+  `State.init N false` does too, with the same results, and ends in a state satisfying `NecWF`.
+* the per-function instances `stabilise_release`, `writeVar_release`, `didSetVarWhileNotStabilising_release`,
   `subscribe_release`, `unsubscribe_release`, `disallowFutureUse_release`, `elabInstr_release`,
   `expertAddDependency_release`, `expertRemoveDependency_release`, `recomputeOne_release`,
   `propagateInvalidity_release`.
 * non-vacuity: a concrete release-mode history (`State.init 4 false`, a var, a map over it, an observer, a
-  stabilisation, a write, a second stabilisation) to which the theorems apply at every step.
+  stabilisation, a write, a second stabilisation) to which the theorems apply at every step (`step_r1` …
+  `step_r6`), and a driver-level history `exHist` (create, create, observe, stabilise, set, subscribe,
+  stabilise) for `history_release` (`exHist_release`).
 
 ## HYPOTHESIS, and what is NOT proved
 * The hypothesis "the debug run from the twin returns normally" is what the transfer rests on; it is NOT derived
@@ -178,6 +186,26 @@ theorem propagateInvalidity_release (fuel : Nat) (s : State) (hrel : Release s) 
   Sim.release (sim_propagateInvalidity fuel) (fun s s' _ => propagateInvalidity_ok fuel s s')
     s hrel hN cr () sd' hdbg
 
+/-- debug mode, every driver action (normal outcome) keeps the invariant -/
+theorem stepAction_debug_ok (env : Env) (a : Action) (tokens : Array Nat) (s s' : State)
+    (r : String × Array Nat) (hN : NecWF s) (hd : s.cfg.debug = true)
+    (hr : (stepAction env a tokens).run.run s = (.ok r, s')) : NecWF s' ∧ s'.cfg.debug = true :=
+  Nec.stepAction_ok env a tokens s s' r hN hd hr
+
+/-- release mode, every driver action whose debug twin returns normally: same result, invariant kept -/
+theorem stepAction_release_necwf (env : Env) (a : Action) (tokens : Array Nat) (s : State) (hrel : Release s)
+    (hN : NecWF s) (cr : Option Nat) (r : String × Array Nat) (sd' : State)
+    (hdbg : (stepAction env a tokens).run.run (debugTwin s cr) = (.ok r, sd')) :
+    (stepAction env a tokens).run.run s = (.ok r, erase sd') ∧ NecWF (erase sd') ∧ Release (erase sd') :=
+  NecRel.stepAction_release_necwf env a tokens s hrel hN cr r sd' hdbg
+
+/-- whole histories from the initial state (all actions returning normally in the debug build) -/
+theorem history_release (env : Env) (N : Nat) (as : List Action) (r : Array Nat) (sd' : State)
+    (hdbg : (Nec.runActs env as #[]).run.run (State.init N true) = (.ok r, sd')) :
+    (Nec.runActs env as #[]).run.run (State.init N false) = (.ok r, erase sd') ∧ NecWF (erase sd') ∧
+      Release (erase sd') :=
+  NecRel.runActs_release env N as r sd' hdbg
+
 /-- C05 (b) in release mode: the parent handed back for direct recomputation is necessary and valid -/
 theorem chain_is_necessary_release (env : Env) (fuel n p : Nat) (s : State) (hrel : Release s) (hN : NecWF s)
     (cr : Option Nat) (sd' : State)
@@ -242,6 +270,23 @@ example : r6.cfg.debug = false ∧ r4.isNecessary 1 = true ∧ r4.isNecessary 0 
     (r4.nodes.map (·.value)) = #[some (.int 1), some (.int 2)] ∧
     (r6.nodes.map (·.value)) = #[some (.int 7), some (.int 8)] :=
   ⟨rfl, by decide +kernel, by decide +kernel, by decide +kernel, by decide +kernel, by decide +kernel⟩
+
+/-- `history_release` on a driver-level history: create a var and a map over it, observe the map, stabilise,
+set the var, subscribe, stabilise again — the release run returns normally and ends in a `NecWF` state whose
+values are 7 and 8 -/
+def exHist : List Action :=
+  [.create (.var (.int 1)), .create (.map 0 [.outer 0]), .observe (.outer 1), .stabilise, .set 0 (.int 7),
+   .subscribe 0 0, .stabilise]
+
+theorem exHist_release :
+    (Nec.runActs exEnv exHist #[]).run.run (State.init 4 false)
+      = (.ok #[0], erase ((Nec.runActs exEnv exHist #[]).run.run (State.init 4 true)).2) ∧
+    NecWF (erase ((Nec.runActs exEnv exHist #[]).run.run (State.init 4 true)).2) ∧
+    Release (erase ((Nec.runActs exEnv exHist #[]).run.run (State.init 4 true)).2) :=
+  history_release exEnv 4 exHist #[0] _ (run_ok_of _ _ #[0] (by decide +kernel))
+
+example : ((erase ((Nec.runActs exEnv exHist #[]).run.run (State.init 4 true)).2).nodes.map (·.value))
+    = #[some (.int 7), some (.int 8)] := by decide +kernel
 
 /-! ## finding: the release build continues past a broken invariant (panic outcome) -/
 
